@@ -236,6 +236,10 @@ func ruleStatusTable(w *World, r *Run, a *updAnalysis, rule string) {
 				continue
 			}
 		}
+		if o.err == "nil" && o.bytes != "cosigned" {
+			r.Fail("C10.d", fnHandleUpdate+" | 200 carries a cosignature made over the submitted text", w.pos(s.RetPos), "the witness can report acceptance while returning "+o.bytes+" bytes (not the cosignature it just made over the submitted note): the endpoint's 200 body would be a signature line that does not verify over the submitted checkpoint")
+			continue
+		}
 		if o.err == "nil" {
 			// C10.d BODY-PROVENANCE
 			var pc *Event
@@ -581,15 +585,18 @@ func ruleParseBodyTotal(w *World, r *Run, ruleB, ruleD string) {
 					}
 				}
 				r.Check(good, ruleD, fnParseBody+" | one proof hash per decoded line, in read order", w.pos(s.RetPos), fmt.Sprintf("proof list %s does not consist of the %d decoded lines in order", short(s.Rets[1].String()), len(dec)))
-				// each decode is of exactly the line read
+				// each decode is of a whole line read from the body (no partial line), however it travelled
 				for _, d := range dec {
 					okLine := false
-					for _, rl := range calls(s, "(*bufio.Reader).ReadLine") {
-						if d.Args[0].Kind == "conv" && d.Args[0].Args[0] == res(rl, 0) {
+					for _, rl := range calls(s, "(*bufio.Reader).ReadLine", "(*bufio.Reader).ReadString", "(*bufio.Reader).ReadBytes") {
+						if mentions(d.Args[0], res(rl, 0)) {
 							okLine = true
 						}
 					}
-					r.Check(okLine, ruleD, fnParseBody+" | proof line decoded whole", w.pos(d.Pos), "base64 decoding is applied to "+short(d.Args[0].String())+", not to the whole line read")
+					if anySub(d.Args[0], func(t *Term) bool { return t.Kind == "slice" && (t.Args[1] != nil || t.Args[2] != nil) }) {
+						okLine = false
+					}
+					r.Check(okLine, ruleD, fnParseBody+" | proof line decoded whole", w.pos(d.Pos), "base64 decoding is applied to "+short(d.Args[0].String())+", not to a whole line read from the body")
 				}
 				// size result derives from the first line
 				r.Check(s.Rets[0].Kind != "const" && s.Rets[0].Kind != "zero", ruleD, fnParseBody+" | old size comes from the size line", w.pos(s.RetPos), "old size result is the constant "+short(s.Rets[0].String()))
@@ -605,6 +612,94 @@ func ruleParseBodyTotal(w *World, r *Run, ruleB, ruleD string) {
 	if nOK == 0 {
 		r.Undecided(ruleB, fnParseBody, "", "no success path recognised")
 	}
+	// C11.e RETAINED-BUFFER (ownership): bufio.Reader.ReadLine returns a view into the reader's buffer that is only
+	// valid until the next read; it may be measured, converted (copied) or passed on, never retained.
+	nRL := 0
+	for _, s := range sums {
+		for _, rl := range calls(s, "(*bufio.Reader).ReadLine") {
+			nRL++
+			line := res(rl, 0)
+			retained := ""
+			for _, ret := range s.Rets {
+				if rawMention(ret, line) {
+					retained = "returned"
+				}
+			}
+			for _, ev := range s.Events {
+				if ev.Kind == "store" && rawMention(ev.Args[0], line) {
+					retained = "stored"
+				}
+			}
+			for _, f := range s.Facts {
+				_ = f
+			}
+			// appended raw into a slice that lives on
+			for _, ev := range s.Events {
+				for _, a0 := range ev.Args {
+					if a0 != nil && anySub(a0, func(t *Term) bool {
+						if t.Kind != "append" {
+							return false
+						}
+						for _, el := range t.Args[1:] {
+							if el == line || (el.Kind == "varargs" && containsTerm(el.Args, line)) {
+								return true
+							}
+						}
+						return false
+					}) {
+						retained = "appended to a slice"
+					}
+				}
+			}
+			for _, ret := range s.Rets {
+				if anySub(ret, func(t *Term) bool {
+					if t.Kind != "append" {
+						return false
+					}
+					for _, el := range t.Args[1:] {
+						if el == line || (el.Kind == "varargs" && containsTerm(el.Args, line)) {
+							return true
+						}
+					}
+					return false
+				}) {
+					retained = "appended to the result"
+				}
+			}
+			r.Check(retained == "", "C11.e", fnParseBody+" | ReadLine's buffer view is not retained across reads", w.pos(rl.Pos), "the slice returned by bufio.Reader.ReadLine is "+retained+" without being copied; it is overwritten by the next read, so bodies larger than the buffer (or delivered in several chunks) parse to different bytes than were written")
+		}
+	}
+	if nRL == 0 {
+		r.Info("C11.e", fnParseBody+" | ReadLine", "", "parseBody no longer uses ReadLine")
+	}
+}
+
+func containsTerm(ts []*Term, x *Term) bool {
+	for _, t := range ts {
+		if t == x {
+			return true
+		}
+	}
+	return false
+}
+
+// rawMention: x occurs in t other than under a copying conversion (string(x)) or len(x).
+func rawMention(t, x *Term) bool {
+	if t == nil {
+		return false
+	}
+	if t == x {
+		return true
+	}
+	if t.Kind == "conv" || t.Kind == "len" || t.Kind == "call" {
+		return false
+	}
+	for _, a := range t.Args {
+		if rawMention(a, x) {
+			return true
+		}
+	}
+	return false
 }
 
 // C11.c STRICT-INTEGER: no fmt.Sscan* family in functions reachable from the endpoint.
